@@ -573,6 +573,10 @@ func (g *Gen) storeValue(a Addr, t types.Type, val string, depth int) {
 			// opaque (foreign) struct value: one token per object, 0 = the zero value
 			// the Int value of an opaque struct IS its token (0 = the zero value)
 			g.store(Addr{Heap: "O_" + typeKey(t), Base: a.Base, Sort: "Int"}, val)
+			// the fields of the destination are overwritten as well: their per-field heaps (read by x.f) must not keep
+			// the values from before the copy. The copied value is opaque, so they become unknown (sound; found by a
+			// contract-writing agent: `*dst = src` of a fiber.Config left dst.TrustProxy at its old value).
+			g.havocFields(a.Base, t, depth)
 			return
 		}
 		srt := g.structSort(t)
@@ -588,6 +592,24 @@ func (g *Gen) storeValue(a Addr, t types.Type, val string, depth int) {
 		return
 	}
 	g.store(a, val)
+}
+
+// havocFields makes every field of the struct object at base unknown (nested struct fields included).
+func (g *Gen) havocFields(base string, t types.Type, depth int) {
+	stt, ok := structOf(t)
+	if !ok || base == "" || depth > 5 || stt.NumFields() > 300 {
+		return
+	}
+	for i := 0; i < stt.NumFields(); i++ {
+		hn, vs, ft := g.fieldHeap(t, i)
+		if _, isSt := structOf(ft); isSt {
+			sub := g.subref(t, i, base)
+			g.store(Addr{Heap: "O_" + typeKey(ft), Base: sub, Sort: "Int"}, g.newConst("hv", "Int"))
+			g.havocFields(sub, ft, depth+1)
+			continue
+		}
+		g.store(Addr{Heap: hn, Base: base, Sort: vs}, g.newConst("hv", vs))
+	}
 }
 
 // structBase: for a pointer-to-struct address, the object's ref.
